@@ -8,7 +8,9 @@
    and after every operation the identity of every value object, the dependency graph on both ends, value classes and
    links are projected, and TLC (Trace_Sim) requires the state to be the baseline's whenever simulated values are not set.
 """
-from .. import efx, simcheck, tlc, tracecheck
+from .. import efx, gen, simcheck, tlc, tracecheck
+import random
+
 from ..common import work_dir, cleanup, seed_from_env, MachineryError
 
 KEYS = ("tid", "seq", "ev", "tok", "val", "chld", "anc", "links", "outcome", "exc", "date_kind", "expect_ok", "recomputed",
@@ -43,6 +45,25 @@ def run_focus(prop, focus, tier, out):
                     flavours[key] = flavours.get(key, 0) + 1
                     outcomes[e["outcome"]] = outcomes.get(e["outcome"], 0) + 1
                     out.nontrivial.add((seed, e["flavour"], e["date_kind"]))
+        if focus != "C05":
+            tid = len(events) + 1000
+            want, want_shared, got, got_shared = (4, 2, 0, 0) if tier == "quick" else (40, 20, 0, 0)
+            for seed in range(base + 5000, base + 5000 + 20 * want):
+                if got >= want and got_shared >= want_shared:
+                    break
+                shared = "journey-shared-by-patterns" in gen.shape_tags(gen.random_model(random.Random(seed)))
+                if got >= want and not shared:
+                    continue
+                evs = simcheck.probe_inputs(ns, tid, seed)
+                if not evs:
+                    continue
+                got += 1
+                got_shared += int(shared)
+                tid += len(evs) + 1
+                events += evs
+                for e in evs:
+                    flavours["probe"] = flavours.get("probe", 0) + 1
+                    out.nontrivial.add((seed, e["flavour"], "probe"))
         trace = wd + "/sim.ndjson"
         tracecheck.write_trace(trace, events, keys=KEYS)
         fails, _n, res2 = tracecheck.validate(wd, "Trace_Sim", trace, {"Focus": tlc.tla_str(focus)}, timeout=3000)
@@ -52,7 +73,7 @@ def run_focus(prop, focus, tier, out):
         by = {(e["tid"], e["seq"]): e for e in events}
         for t, s, clause, data in fails:
             e = by.get((t, s), {})
-            create = next((x for x in events if x["tid"] == t and x["ev"] == "SimCreate"), {})
+            create = next((x for x in events if x["tid"] == t and x["ev"] in ("SimCreate", "SimProbe")), {})
             out.violation(f"{clause}:{create.get('flavour')}:{create.get('date_kind')}" if "hourly-input-replaced" not in clause else clause,
                           {"clause": clause, "spec_says": data[:1500], "seed": e.get("seed"), "event": e.get("ev"),
                            "flavour": create.get("flavour"), "date_kind": create.get("date_kind"),
